@@ -55,11 +55,11 @@ Proof.
     + intros E. right. split.
       * intros m Hin Hw Hn. assert (Hmc : In m c) by (apply Hc; auto).
         specialize (Hnone m Hmc). cbn beta in Hnone. rewrite Hn, String.eqb_refl in Hnone. discriminate.
-      * destruct c as [|m [|? ?]]; try discriminate. inversion E. exists m. split; reflexivity.
+      * destruct c as [|m [|? ?]]; try discriminate. inversion E as [H0]. exists m. split; [symmetry; exact Ec | reflexivity].
     + intros [[-> (m & Hin & Hw & Hn)] | [_ (m & Hf & Hn)]].
       * exfalso. assert (Hmc : In m c) by (apply Hc; auto).
         specialize (Hnone m Hmc). cbn beta in Hnone. rewrite Hn, String.eqb_refl in Hnone. discriminate.
-      * rewrite Hf. rewrite Hn. reflexivity.
+      * rewrite Ec, Hf. rewrite Hn. reflexivity.
 Qed.
 
 (* no hook in the SPEC's sense => none selected, for plain declarations *)
@@ -98,10 +98,11 @@ Qed.
 Lemma candidate_well_shaped : forall nt m, is_candidate nt m = true -> well_shaped nt m = true.
 Proof.
   intros nt m H. unfold is_candidate in H. unfold well_shaped.
-  repeat (apply andb_true_iff in H; destruct H as [H ?]).
-  rewrite H, H1. cbn [andb]. rewrite andb_true_r.
-  unfold matches_underlying_param in H2. destruct (m_params m) as [|p [|? ?]]; try discriminate.
-  rewrite (ty_eqb_same _ _ H2). exact H0.
+  apply andb_true_iff in H. destruct H as [H Hr].
+  apply andb_true_iff in H. destruct H as [H Hm].
+  rewrite H, Hr. cbn [andb]. rewrite andb_true_r.
+  unfold matches_underlying_param in Hm. destruct (m_params m) as [|p [|? ?]]; try discriminate.
+  apply ty_eqb_same. exact Hm.
 Qed.
 
 (* ------------------------------------------------------------------ refutations of the selection *)
@@ -147,6 +148,12 @@ Proof.
     eapply hook_w; [reflexivity | vm_compute; reflexivity | reflexivity].
 Qed.
 
+Lemma filter_none : forall (A : Type) (f : A -> bool) l, (forall x, In x l -> f x = false) -> filter f l = [].
+Proof.
+  induction l as [|x r IH]; intros H; [reflexivity|]. cbn [filter].
+  rewrite (H x (or_introl eq_refl)). apply IH. intros y Hy. apply H. right; exact Hy.
+Qed.
+
 (* the generic class is exactly "never selected": the underlying annotation has a nested type whose
    span differs from the span of the nested type of every parameter annotation (always the case in a
    source file: they are different occurrences) *)
@@ -158,16 +165,19 @@ Lemma generic_underlying_never_selected : forall nt k n t s rest,
 Proof.
   intros nt k n t s rest Hu Hs.
   assert (Hnone : forall m, In m (nt_methods nt) -> is_candidate nt m = false).
-  { intros m Hin. unfold is_candidate, matches_underlying_param. rewrite Hu.
-    destruct (m_params m) as [|p [|? ?]] eqn:Ep; try (rewrite !andb_false_r; reflexivity).
-    destruct p as [x| | |k' n' [|[t' s'] rest']]; cbn [ty_eqb]; try (rewrite !andb_false_r; reflexivity).
-    assert (Hne : s' <> s).
-    { eapply Hs; [exact Hin | rewrite Ep; left; reflexivity | reflexivity]. }
-    apply Z.eqb_neq in Hne. rewrite Hne. rewrite !andb_false_r. cbn [andb]. rewrite !andb_false_r. reflexivity. }
+  { intros m Hin.
+    assert (Hm : matches_underlying_param m (nt_under nt) = false).
+    { unfold matches_underlying_param. rewrite Hu.
+      destruct (m_params m) as [|p [|? ?]] eqn:Ep; try reflexivity.
+      destruct p as [x| | |k' n' [|[t' s'] rest']]; cbn [ty_eqb]; try reflexivity.
+      - rewrite andb_false_r. reflexivity.
+      - assert (Hne : s' <> s).
+        { apply (Hs m (TNode k' n' ((t', s') :: rest')) k' n' t' s' rest' Hin); [rewrite Ep; left; reflexivity | reflexivity]. }
+        apply Z.eqb_neq in Hne. rewrite Hne. rewrite andb_false_r. cbn [andb]. rewrite andb_false_r. reflexivity. }
+    unfold is_candidate. rewrite Hm. rewrite andb_false_r. reflexivity. }
   unfold select_newtype_checked_ctor.
   assert (E : filter (is_candidate nt) (nt_methods nt) = []).
-  { induction (nt_methods nt) as [|m r IH]; [reflexivity|]. cbn [filter].
-    rewrite (Hnone m (or_introl eq_refl)). apply IH. intros m' Hin. apply Hnone. right; exact Hin. }
+  { apply filter_none. exact Hnone. }
   rewrite E. reflexivity.
 Qed.
 
@@ -190,8 +200,7 @@ Section Value.
     end.
   Proof.
     intros T h a HT. unfold checked_ctor. cbn [eval]. unfold expect_name. rewrite String.eqb_refl.
-    rewrite HT. destruct (eval hookfn env a) as [x|m p|]; try reflexivity.
-    destruct (hookfn T h x); reflexivity.
+    rewrite HT. destruct (eval hookfn env a) as [x|m p|]; reflexivity.
   Qed.
 
   Lemma invalid_rejected : forall st T a h a' x e i,
@@ -279,7 +288,7 @@ Lemma nominal_lifted : forall n T1 T2, T1 <> T2 ->
   compatible (RGeneric n [RNamed T1]) (RGeneric n [RNamed T2]) = false.
 Proof.
   intros n T1 T2 H. apply String.eqb_neq in H.
-  cbn [compatible rty_eqb]. rewrite H. rewrite !andb_false_r. cbn [andb]. rewrite !andb_false_r. reflexivity.
+  cbn [compatible rty_eqb]. rewrite H. cbn [andb]. rewrite !andb_false_r. reflexivity.
 Qed.
 
 Lemma mix_rejected : forall s T1 T2, ~ Known_C17_call_arg_unchecked s -> T1 <> T2 ->
